@@ -46,7 +46,7 @@ impl Check for C19 {
     fn meta(&self) -> Meta {
         Meta {
             level: "exploration",
-            rule: "CONNECT (webtransport) request placed on stream id 4k for k in {0,1,2,3,15,16,4095,4096,2^28,2^58} (1-, 2-, 4- and 8-byte varint ids), accepted first or after 0-2 ordinary requests; extension enabled or disabled on the server; 0-3 client-opened WebTransport uni and 0-2 bidi streams whose header (0x54/0x41 + session id, every varint form) and payload (0..40 bytes, sometimes 300) are delivered in 1-3 byte chunks so that every boundary inside the two varints and the header/payload boundary falls on a chunk edge, incl. header+payload in one chunk with nothing after it and header then FIN; 0-2 server-opened uni and bidi streams with drawn write acceptance; all interleavings drawn; judged at exact quiescence with the streams still open; non-trivial = session established and >= 1 WebTransport stream; distinct = distinct schedule signatures",
+            rule: "CONNECT (webtransport) request placed on stream id 4k for k in {0,1,2,3,15,16,4095,4096,2^28,2^58} (1-, 2-, 4- and 8-byte varint ids), accepted first or after 0-2 ordinary requests; extension enabled or disabled on the server; 0-3 client-opened WebTransport uni and 0-2 bidi streams (read whole, or split() before the first read) whose header (0x54/0x41 + session id, every varint form) and payload (0..40 bytes, sometimes 300) are delivered in 1-3 byte chunks so that every boundary inside the two varints and the header/payload boundary falls on a chunk edge, incl. header+payload in one chunk with nothing after it and header then FIN; 0-2 server-opened uni and bidi streams with drawn write acceptance; all interleavings drawn; judged at exact quiescence with the streams still open; non-trivial = session established and >= 1 WebTransport stream; distinct = distinct schedule signatures",
             real: &["h3_webtransport::server::WebTransportSession (accept, session_id, open_bi, open_uni, accept_bi, accept_uni)", "h3_webtransport::stream types", "h3::webtransport::SessionId", "h3 server connection, AcceptRecvStream (uni header resolution), FrameStream (0x41 signal), stream header encoding"],
             stub: &["QUIC transport incl. datagram and unframed-send extension traits (SimQuic)", "executor (simexec)", "reference client (script, reference codecs)", "application tasks"],
             assumptions: &["the reference client opens WebTransport bidi streams only after it has seen the 2xx response (a bidi stream that overtakes the CONNECT request is refused by h3's ordinary accept path, which is outside this property)", "stream ids above 2^20 are used with arrival-order accept only"],
@@ -276,7 +276,29 @@ impl Check for C19 {
                                     let id = s.recv_id().into_inner();
                                     rec.borrow_mut().incoming.insert(id, (sid_value(sid), vec![], false));
                                     let rec = rec.clone();
+                                    // the application may split the accepted stream before it reads (one time in two)
+                                    let split_first = draw(2) == 1;
                                     exec::spawn(format!("wt-bi-reader{id}"), async move {
+                                        if split_first {
+                                            obs::count("probe.incoming_bidi_split_before_reading");
+                                            let (tx, mut rx) = h3::quic::BidiStream::split(s);
+                                            loop {
+                                                match poll_fn(|cx| h3::quic::RecvStream::poll_data(&mut rx, cx)).await {
+                                                    Ok(Some(b)) => rec.borrow_mut().incoming.get_mut(&id).unwrap().1.extend_from_slice(&b),
+                                                    Ok(None) => {
+                                                        rec.borrow_mut().incoming.get_mut(&id).unwrap().2 = true;
+                                                        break;
+                                                    }
+                                                    Err(e) => {
+                                                        rec.borrow_mut().read_errs.push(format!("bidi {id} (receive half): {e}"));
+                                                        break;
+                                                    }
+                                                }
+                                            }
+                                            std::future::pending::<()>().await;
+                                            drop(tx);
+                                            return;
+                                        }
                                         loop {
                                             match poll_fn(|cx| s.poll_data(cx)).await {
                                                 Ok(Some(b)) => rec.borrow_mut().incoming.get_mut(&id).unwrap().1.extend_from_slice(&b),
